@@ -27,9 +27,23 @@ type Call struct {
 	Check func() error
 	// Summary identifies the response value for cross-call comparisons.
 	Summary func() string
+	// remake rebuilds the command value and comparators against the same
+	// BMC-side data (set by Catalogue()).
+	remake func() *Call
 	// SerialiseFails is set when the library must refuse to serialise the
 	// request (no datagram may be sent).
 	SerialiseFails bool
+}
+
+// Fresh returns a new, never-used command value of the same kind with the same
+// request fields and the same expectations (the BMC-side data is untouched).
+func (c *Call) Fresh() *Call {
+	if c.remake == nil {
+		return c
+	}
+	n := c.remake()
+	n.remake = c.remake
+	return n
 }
 
 // Entry is a catalogue entry.
@@ -93,149 +107,179 @@ func Catalogue() []Entry {
 		{Name: "GetDeviceID", Prepare: func(t *rapid.T, b *simbmc.BMC) *Call {
 			d := GenDeviceID().Draw(t, "deviceID")
 			b.Data.DeviceID = d
-			c := &ipmi.GetDeviceIDCmd{}
-			return &Call{Name: "Get Device ID", Key: key(ref.NetFnApp, ref.CmdGetDeviceID), Cmd: c, WantFields: map[string]uint64{}, HasBody: true,
-				Check: func() error { return CmpDeviceID(&d, &c.Rsp) }, Summary: func() string { return fmt.Sprintf("%+v", c.Rsp) }}
+			return withRemake(func() *Call {
+				c := &ipmi.GetDeviceIDCmd{}
+				return &Call{Name: "Get Device ID", Key: key(ref.NetFnApp, ref.CmdGetDeviceID), Cmd: c, WantFields: map[string]uint64{}, HasBody: true,
+					Check: func() error { return CmpDeviceID(&d, &c.Rsp) }, Summary: func() string { return fmt.Sprintf("%+v", c.Rsp) }}
+			})
 		}},
 		{Name: "GetSystemGUID", Prepare: func(t *rapid.T, b *simbmc.BMC) *Call {
 			g := rapid.SliceOfN(rapid.Byte(), 16, 16).Draw(t, "guid")
 			copy(b.GUID[:], g)
-			c := &ipmi.GetSystemGUIDCmd{}
-			return &Call{Name: "Get System GUID", Key: key(ref.NetFnApp, ref.CmdGetSystemGUID), Cmd: c, WantFields: map[string]uint64{}, HasBody: true,
-				Check: func() error {
-					if c.Rsp.GUID != b.GUID {
-						return fmt.Errorf("GUID: got %x want %x", c.Rsp.GUID, b.GUID)
-					}
-					return nil
-				}, Summary: func() string { return fmt.Sprintf("%x", c.Rsp.GUID) }}
+			return withRemake(func() *Call {
+				c := &ipmi.GetSystemGUIDCmd{}
+				return &Call{Name: "Get System GUID", Key: key(ref.NetFnApp, ref.CmdGetSystemGUID), Cmd: c, WantFields: map[string]uint64{}, HasBody: true,
+					Check: func() error {
+						if c.Rsp.GUID != b.GUID {
+							return fmt.Errorf("GUID: got %x want %x", c.Rsp.GUID, b.GUID)
+						}
+						return nil
+					}, Summary: func() string { return fmt.Sprintf("%x", c.Rsp.GUID) }}
+			})
 		}},
 		{Name: "GetChannelAuthenticationCapabilities", Prepare: func(t *rapid.T, b *simbmc.BMC) *Call {
 			d := GenChanAuthCap().Draw(t, "cap")
 			b.Data.ChanAuthCap = d
-			c := &ipmi.GetChannelAuthenticationCapabilitiesCmd{Req: ipmi.GetChannelAuthenticationCapabilitiesReq{
+			req := ipmi.GetChannelAuthenticationCapabilitiesReq{
 				ExtendedData: rapid.Bool().Draw(t, "ext"), Channel: ipmi.Channel(rapid.IntRange(0, 15).Draw(t, "chan")),
-				MaxPrivilegeLevel: ipmi.PrivilegeLevel(rapid.IntRange(0, 5).Draw(t, "priv"))}}
-			ext := uint64(0)
-			if c.Req.ExtendedData {
-				ext = 1
-			}
-			return &Call{Name: "Get Channel Authentication Capabilities", Key: key(ref.NetFnApp, ref.CmdGetChanAuthCap), Cmd: c, HasBody: true,
-				WantFields: map[string]uint64{"ext": ext, "channel": uint64(c.Req.Channel), "priv": uint64(c.Req.MaxPrivilegeLevel)},
-				Check:      func() error { return CmpChanAuthCap(&d, &c.Rsp) }, Summary: func() string { return fmt.Sprintf("%+v", c.Rsp) }}
+				MaxPrivilegeLevel: ipmi.PrivilegeLevel(rapid.IntRange(0, 5).Draw(t, "priv"))}
+			return withRemake(func() *Call {
+				c := &ipmi.GetChannelAuthenticationCapabilitiesCmd{Req: req}
+				ext := uint64(0)
+				if c.Req.ExtendedData {
+					ext = 1
+				}
+				return &Call{Name: "Get Channel Authentication Capabilities", Key: key(ref.NetFnApp, ref.CmdGetChanAuthCap), Cmd: c, HasBody: true,
+					WantFields: map[string]uint64{"ext": ext, "channel": uint64(c.Req.Channel), "priv": uint64(c.Req.MaxPrivilegeLevel)},
+					Check:      func() error { return CmpChanAuthCap(&d, &c.Rsp) }, Summary: func() string { return fmt.Sprintf("%+v", c.Rsp) }}
+			})
 		}},
 		{Name: "GetSessionInfo", Session: true, Prepare: func(t *rapid.T, b *simbmc.BMC) *Call {
 			d := GenSessionInfo().Draw(t, "info")
 			b.Data.SessionInfo = d
-			c := &ipmi.GetSessionInfoCmd{}
+			var req ipmi.GetSessionInfoReq
 			want := map[string]uint64{}
 			switch rapid.IntRange(0, 2).Draw(t, "form") {
 			case 0:
-				c.Req.Index = ipmi.SessionIndex(rapid.IntRange(0, 0xFD).Draw(t, "index"))
+				req.Index = ipmi.SessionIndex(rapid.IntRange(0, 0xFD).Draw(t, "index"))
 			case 1:
-				c.Req.Index = ipmi.SessionIndexHandle
-				c.Req.Handle = ipmi.SessionHandle(rapid.Byte().Draw(t, "handle"))
-				want["handle"] = uint64(c.Req.Handle)
+				req.Index = ipmi.SessionIndexHandle
+				req.Handle = ipmi.SessionHandle(rapid.Byte().Draw(t, "handle"))
+				want["handle"] = uint64(req.Handle)
 			case 2:
-				c.Req.Index = ipmi.SessionIndexID
-				c.Req.ID = rapid.Uint32().Draw(t, "id")
-				want["id"] = uint64(c.Req.ID)
+				req.Index = ipmi.SessionIndexID
+				req.ID = rapid.Uint32().Draw(t, "id")
+				want["id"] = uint64(req.ID)
 			}
-			want["index"] = uint64(c.Req.Index)
-			return &Call{Name: "Get Session Info", Key: key(ref.NetFnApp, ref.CmdGetSessionInfo), Cmd: c, WantFields: want, HasBody: true,
-				Check: func() error { return CmpSessionInfo(&d, &c.Rsp) }, Summary: func() string { return fmt.Sprintf("%+v", c.Rsp) }}
+			want["index"] = uint64(req.Index)
+			return withRemake(func() *Call {
+				c := &ipmi.GetSessionInfoCmd{Req: req}
+				return &Call{Name: "Get Session Info", Key: key(ref.NetFnApp, ref.CmdGetSessionInfo), Cmd: c, WantFields: want, HasBody: true,
+					Check: func() error { return CmpSessionInfo(&d, &c.Rsp) }, Summary: func() string { return fmt.Sprintf("%+v", c.Rsp) }}
+			})
 		}},
 		{Name: "SetSessionPrivilegeLevel", Session: true, Prepare: func(t *rapid.T, b *simbmc.BMC) *Call {
 			lvl := rapid.SampledFrom([]int{0, 2, 3, 4, 5}).Draw(t, "level")
 			b.Data.PrivLevel = byte(rapid.IntRange(1, 5).Draw(t, "current"))
-			c := &ipmi.SetSessionPrivilegeLevelCmd{Req: ipmi.SetSessionPrivilegeLevelReq{PrivilegeLevel: ipmi.PrivilegeLevel(lvl)}}
-			want := b.Data.PrivLevel
-			if lvl != 0 {
-				want = byte(lvl)
-			}
-			return &Call{Name: "Set Session Privilege Level", Key: key(ref.NetFnApp, ref.CmdSetSessPriv), Cmd: c, HasBody: true,
-				WantFields: map[string]uint64{"level": uint64(lvl)},
-				Check: func() error {
-					if byte(c.Rsp.PrivilegeLevel) != want {
-						return fmt.Errorf("privilege level: got %d want %d", c.Rsp.PrivilegeLevel, want)
-					}
-					return nil
-				}, Summary: func() string { return fmt.Sprint(c.Rsp.PrivilegeLevel) }}
+			return withRemake(func() *Call {
+				c := &ipmi.SetSessionPrivilegeLevelCmd{Req: ipmi.SetSessionPrivilegeLevelReq{PrivilegeLevel: ipmi.PrivilegeLevel(lvl)}}
+				want := b.Data.PrivLevel
+				if lvl != 0 {
+					want = byte(lvl)
+				}
+				return &Call{Name: "Set Session Privilege Level", Key: key(ref.NetFnApp, ref.CmdSetSessPriv), Cmd: c, HasBody: true,
+					WantFields: map[string]uint64{"level": uint64(lvl)},
+					Check: func() error {
+						if byte(c.Rsp.PrivilegeLevel) != want {
+							return fmt.Errorf("privilege level: got %d want %d", c.Rsp.PrivilegeLevel, want)
+						}
+						return nil
+					}, Summary: func() string { return fmt.Sprint(c.Rsp.PrivilegeLevel) }}
+			})
 		}},
 		{Name: "CloseSessionOther", Session: true, Prepare: func(t *rapid.T, b *simbmc.BMC) *Call {
 			// closes some other (non-existent) session so the current one stays usable
-			c := &ipmi.CloseSessionCmd{}
+			var req ipmi.CloseSessionReq
 			want := map[string]uint64{}
 			if rapid.Bool().Draw(t, "byHandle") {
-				c.Req.ID = 0
-				c.Req.Handle = ipmi.SessionHandle(rapid.Byte().Draw(t, "handle"))
-				want["id"], want["handle"] = 0, uint64(c.Req.Handle)
+				req.ID = 0
+				req.Handle = ipmi.SessionHandle(rapid.Byte().Draw(t, "handle"))
+				want["id"], want["handle"] = 0, uint64(req.Handle)
 			} else {
 				id := rapid.Uint32Range(1, 0xFFFFFFFF).Draw(t, "id")
 				for b.Sessions[id] != nil {
 					id++
 				}
-				c.Req.ID = id
+				req.ID = id
 				want["id"] = uint64(id)
 			}
-			return &Call{Name: "Close Session", Key: key(ref.NetFnApp, ref.CmdCloseSession), Cmd: c, WantFields: want,
-				Check: func() error { return nil }, Summary: func() string { return "" }}
+			return withRemake(func() *Call {
+				c := &ipmi.CloseSessionCmd{Req: req}
+				return &Call{Name: "Close Session", Key: key(ref.NetFnApp, ref.CmdCloseSession), Cmd: c, WantFields: want,
+					Check: func() error { return nil }, Summary: func() string { return "" }}
+			})
 		}},
 		{Name: "GetChannelCipherSuites", Prepare: func(t *rapid.T, b *simbmc.BMC) *Call {
 			n := rapid.IntRange(0, 40).Draw(t, "recordBytes")
 			b.SuiteRecords = rapid.SliceOfN(rapid.Byte(), n, n).Draw(t, "records")
-			c := &ipmi.GetChannelCipherSuitesCmd{Req: ipmi.GetChannelCipherSuitesReq{
+			req := ipmi.GetChannelCipherSuitesReq{
 				Channel: ipmi.Channel(rapid.IntRange(0, 15).Draw(t, "chan")), PayloadType: ipmi.PayloadType(rapid.IntRange(0, 63).Draw(t, "pt")),
-				ListIndex: uint8(rapid.IntRange(0, 63).Draw(t, "index"))}}
-			idx := int(c.Req.ListIndex)
-			lo, hi := idx*16, idx*16+16
-			if lo > n {
-				lo = n
-			}
-			if hi > n {
-				hi = n
-			}
-			want := append([]byte(nil), b.SuiteRecords[lo:hi]...)
-			return &Call{Name: "Get Channel Cipher Suites", Key: key(ref.NetFnApp, ref.CmdGetCipherSuites), Cmd: c, HasBody: true,
-				WantFields: map[string]uint64{"channel": uint64(c.Req.Channel), "payloadType": uint64(c.Req.PayloadType), "listAlgs": 1, "index": uint64(c.Req.ListIndex)},
-				Check: func() error {
-					if string(c.Rsp.CipherSuiteRecordsChunk) != string(want) {
-						return fmt.Errorf("chunk: got %x want %x", c.Rsp.CipherSuiteRecordsChunk, want)
-					}
-					return nil
-				}, Summary: func() string { return fmt.Sprintf("%x", c.Rsp.CipherSuiteRecordsChunk) }}
+				ListIndex: uint8(rapid.IntRange(0, 63).Draw(t, "index"))}
+			return withRemake(func() *Call {
+				c := &ipmi.GetChannelCipherSuitesCmd{Req: req}
+				idx := int(c.Req.ListIndex)
+				lo, hi := idx*16, idx*16+16
+				if lo > n {
+					lo = n
+				}
+				if hi > n {
+					hi = n
+				}
+				want := append([]byte(nil), b.SuiteRecords[lo:hi]...)
+				return &Call{Name: "Get Channel Cipher Suites", Key: key(ref.NetFnApp, ref.CmdGetCipherSuites), Cmd: c, HasBody: true,
+					WantFields: map[string]uint64{"channel": uint64(c.Req.Channel), "payloadType": uint64(c.Req.PayloadType), "listAlgs": 1, "index": uint64(c.Req.ListIndex)},
+					Check: func() error {
+						if string(c.Rsp.CipherSuiteRecordsChunk) != string(want) {
+							return fmt.Errorf("chunk: got %x want %x", c.Rsp.CipherSuiteRecordsChunk, want)
+						}
+						return nil
+					}, Summary: func() string { return fmt.Sprintf("%x", c.Rsp.CipherSuiteRecordsChunk) }}
+			})
 		}},
 		{Name: "GetChassisStatus", Prepare: func(t *rapid.T, b *simbmc.BMC) *Call {
 			d := GenChassisStatus().Draw(t, "chassis")
 			b.Data.Chassis = d
-			c := &ipmi.GetChassisStatusCmd{}
-			return &Call{Name: "Get Chassis Status", Key: key(ref.NetFnChassis, ref.CmdChassisStatus), Cmd: c, WantFields: map[string]uint64{}, HasBody: true,
-				Check: func() error { return CmpChassisStatus(&d, &c.Rsp) }, Summary: func() string { return fmt.Sprintf("%+v", c.Rsp) }}
+			return withRemake(func() *Call {
+				c := &ipmi.GetChassisStatusCmd{}
+				return &Call{Name: "Get Chassis Status", Key: key(ref.NetFnChassis, ref.CmdChassisStatus), Cmd: c, WantFields: map[string]uint64{}, HasBody: true,
+					Check: func() error { return CmpChassisStatus(&d, &c.Rsp) }, Summary: func() string { return fmt.Sprintf("%+v", c.Rsp) }}
+			})
 		}},
 		{Name: "ChassisControl", Session: true, Prepare: func(t *rapid.T, b *simbmc.BMC) *Call {
 			v := rapid.IntRange(0, 5).Draw(t, "control")
-			c := &ipmi.ChassisControlCmd{Req: ipmi.ChassisControlReq{ChassisControl: ipmi.ChassisControl(v)}}
-			return &Call{Name: "Chassis Control", Key: key(ref.NetFnChassis, ref.CmdChassisControl), Cmd: c, WantFields: map[string]uint64{"control": uint64(v)},
-				Check: func() error { return nil }, Summary: func() string { return "" }}
+			return withRemake(func() *Call {
+				c := &ipmi.ChassisControlCmd{Req: ipmi.ChassisControlReq{ChassisControl: ipmi.ChassisControl(v)}}
+				return &Call{Name: "Chassis Control", Key: key(ref.NetFnChassis, ref.CmdChassisControl), Cmd: c, WantFields: map[string]uint64{"control": uint64(v)},
+					Check: func() error { return nil }, Summary: func() string { return "" }}
+			})
 		}},
 		{Name: "GetSDRRepositoryInfo", Session: true, Prepare: func(t *rapid.T, b *simbmc.BMC) *Call {
 			d := GenSDRRepoInfo().Draw(t, "repoInfo")
 			b.Data.Repo.Info = d
 			b.Data.Repo.AddTS, b.Data.Repo.EraseTS = d.AddTS, d.EraseTS
 			d.Count = uint16(len(b.Data.Repo.Records))
-			c := &ipmi.GetSDRRepositoryInfoCmd{}
-			return &Call{Name: "Get SDR Repository Info", Key: key(ref.NetFnStorage, ref.CmdSDRRepoInfo), Cmd: c, WantFields: map[string]uint64{}, HasBody: true,
-				Check: func() error { return CmpSDRRepoInfo(&d, &c.Rsp) }, Summary: func() string { return fmt.Sprintf("%+v", c.Rsp) }}
+			return withRemake(func() *Call {
+				c := &ipmi.GetSDRRepositoryInfoCmd{}
+				return &Call{Name: "Get SDR Repository Info", Key: key(ref.NetFnStorage, ref.CmdSDRRepoInfo), Cmd: c, WantFields: map[string]uint64{}, HasBody: true,
+					Check: func() error {
+						e := d
+						e.Count = uint16(len(b.Data.Repo.Records)) // whatever the repository holds now
+						return CmpSDRRepoInfo(&e, &c.Rsp)
+					}, Summary: func() string { return fmt.Sprintf("%+v", c.Rsp) }}
+			})
 		}},
 		{Name: "ReserveSDRRepository", Session: true, Prepare: func(t *rapid.T, b *simbmc.BMC) *Call {
 			b.Data.Repo.Reservation = rapid.Uint16().Draw(t, "lastReservation")
-			c := &ipmi.ReserveSDRRepositoryCmd{}
-			return &Call{Name: "Reserve SDR Repository", Key: key(ref.NetFnStorage, ref.CmdReserveSDR), Cmd: c, WantFields: map[string]uint64{}, HasBody: true,
-				Check: func() error {
-					if uint16(c.Rsp.ReservationID) != b.Data.Repo.Reservation {
-						return fmt.Errorf("reservation: got %#x want %#x", c.Rsp.ReservationID, b.Data.Repo.Reservation)
-					}
-					return nil
-				}, Summary: func() string { return fmt.Sprint(c.Rsp.ReservationID) }}
+			return withRemake(func() *Call {
+				c := &ipmi.ReserveSDRRepositoryCmd{}
+				return &Call{Name: "Reserve SDR Repository", Key: key(ref.NetFnStorage, ref.CmdReserveSDR), Cmd: c, WantFields: map[string]uint64{}, HasBody: true,
+					Check: func() error {
+						if uint16(c.Rsp.ReservationID) != b.Data.Repo.Reservation {
+							return fmt.Errorf("reservation: got %#x want %#x", c.Rsp.ReservationID, b.Data.Repo.Reservation)
+						}
+						return nil
+					}, Summary: func() string { return fmt.Sprint(c.Rsp.ReservationID) }}
+			})
 		}},
 		{Name: "GetSDR", Session: true, Prepare: func(t *rapid.T, b *simbmc.BMC) *Call {
 			// one record of 5..40 bytes; header-only, partial or full read
@@ -248,46 +292,53 @@ func Catalogue() []Entry {
 			b.Data.Repo.ReservationValid = true
 			off := rapid.IntRange(0, len(rec)).Draw(t, "offset")
 			cnt := rapid.IntRange(0, len(rec)-off).Draw(t, "count")
-			c := &ipmi.GetSDRCmd{Req: ipmi.GetSDRReq{ReservationID: ipmi.ReservationID(b.Data.Repo.Reservation), RecordID: ipmi.RecordID(id), Offset: uint8(off), Length: uint8(cnt)}}
-			want := rec[off : off+cnt]
-			return &Call{Name: "Get SDR", Key: key(ref.NetFnStorage, ref.CmdGetSDR), Cmd: c, HasBody: true,
-				WantFields: map[string]uint64{"reservation": uint64(b.Data.Repo.Reservation), "record": uint64(id), "offset": uint64(off), "count": uint64(cnt)},
-				Check: func() error {
-					if uint16(c.Rsp.Next) != next {
-						return fmt.Errorf("next: got %#x want %#x", c.Rsp.Next, next)
-					}
-					if string(c.Rsp.Payload) != string(want) {
-						return fmt.Errorf("record data: got %x want %x", c.Rsp.Payload, want)
-					}
-					return nil
-				}, Summary: func() string { return fmt.Sprintf("%v %x", c.Rsp.Next, c.Rsp.Payload) }}
+			return withRemake(func() *Call {
+				c := &ipmi.GetSDRCmd{Req: ipmi.GetSDRReq{ReservationID: ipmi.ReservationID(b.Data.Repo.Reservation), RecordID: ipmi.RecordID(id), Offset: uint8(off), Length: uint8(cnt)}}
+				want := rec[off : off+cnt]
+				return &Call{Name: "Get SDR", Key: key(ref.NetFnStorage, ref.CmdGetSDR), Cmd: c, HasBody: true,
+					WantFields: map[string]uint64{"reservation": uint64(b.Data.Repo.Reservation), "record": uint64(id), "offset": uint64(off), "count": uint64(cnt)},
+					Check: func() error {
+						if uint16(c.Rsp.Next) != next {
+							return fmt.Errorf("next: got %#x want %#x", c.Rsp.Next, next)
+						}
+						if string(c.Rsp.Payload) != string(want) {
+							return fmt.Errorf("record data: got %x want %x", c.Rsp.Payload, want)
+						}
+						return nil
+					}, Summary: func() string { return fmt.Sprintf("%v %x", c.Rsp.Next, c.Rsp.Payload) }}
+			})
 		}},
 		{Name: "GetSensorReading", Session: true, Prepare: func(t *rapid.T, b *simbmc.BMC) *Call {
 			d := GenSensorReading().Draw(t, "reading")
 			num, lun := rapid.Byte().Draw(t, "number"), byte(rapid.IntRange(0, 3).Draw(t, "lun"))
 			b.Data.Sensors = map[uint16]ref.SensorReading{uint16(lun)<<8 | uint16(num): d}
-			c := &ipmi.GetSensorReadingCmd{Req: ipmi.GetSensorReadingReq{Number: num}, OwnerLUN: ipmi.LUN(lun)}
-			return &Call{Name: "Get Sensor Reading", Key: key(ref.NetFnSensor, ref.CmdSensorReading), Cmd: c, WantLUN: lun, HasBody: true,
-				WantFields: map[string]uint64{"number": uint64(num)},
-				Check:      func() error { return CmpSensorReading(&d, &c.Rsp) }, Summary: func() string { return fmt.Sprintf("%+v", c.Rsp) }}
+			return withRemake(func() *Call {
+				c := &ipmi.GetSensorReadingCmd{Req: ipmi.GetSensorReadingReq{Number: num}, OwnerLUN: ipmi.LUN(lun)}
+				return &Call{Name: "Get Sensor Reading", Key: key(ref.NetFnSensor, ref.CmdSensorReading), Cmd: c, WantLUN: lun, HasBody: true,
+					WantFields: map[string]uint64{"number": uint64(num)},
+					Check:      func() error { return CmpSensorReading(&d, &c.Rsp) }, Summary: func() string { return fmt.Sprintf("%+v", c.Rsp) }}
+			})
 		}},
 		{Name: "DCMIGetPowerReading", Session: true, Prepare: func(t *rapid.T, b *simbmc.BMC) *Call {
 			d := GenDCMIPower().Draw(t, "power")
 			b.Data.Power = d
-			c := &dcmi.GetPowerReadingCmd{}
+			var req dcmi.GetPowerReadingReq
 			want := map[string]uint64{"period": 0}
 			if rapid.Bool().Draw(t, "enhanced") {
-				c.Req.Mode = dcmi.SystemPowerStatisticsModeEnhanced
+				req.Mode = dcmi.SystemPowerStatisticsModeEnhanced
 				pb := rapid.Byte().Draw(t, "periodByte")
 				sec := ref.RollingAvgSeconds(pb)
-				c.Req.Period = time.Duration(sec) * time.Second
+				req.Period = time.Duration(sec) * time.Second
 				want["period"] = uint64(ref.RollingAvgByte(sec))
 			} else {
-				c.Req.Mode = dcmi.SystemPowerStatisticsModeNormal
+				req.Mode = dcmi.SystemPowerStatisticsModeNormal
 			}
-			want["mode"] = uint64(c.Req.Mode)
-			return &Call{Name: "Get Power Reading", Key: key(ref.NetFnGroup, ref.CmdDCMIPower), Cmd: c, WantFields: want, HasBody: true,
-				Check: func() error { return CmpDCMIPower(&d, &c.Rsp) }, Summary: func() string { return fmt.Sprintf("%+v", c.Rsp) }}
+			want["mode"] = uint64(req.Mode)
+			return withRemake(func() *Call {
+				c := &dcmi.GetPowerReadingCmd{Req: req}
+				return &Call{Name: "Get Power Reading", Key: key(ref.NetFnGroup, ref.CmdDCMIPower), Cmd: c, WantFields: want, HasBody: true,
+					Check: func() error { return CmpDCMIPower(&d, &c.Rsp) }, Summary: func() string { return fmt.Sprintf("%+v", c.Rsp) }}
+			})
 		}},
 		{Name: "DCMIGetSensorInfo", Session: true, Prepare: func(t *rapid.T, b *simbmc.BMC) *Call {
 			ent := rapid.Byte().Draw(t, "entity")
@@ -297,28 +348,38 @@ func Catalogue() []Entry {
 			b.Data.DCMIPage = rapid.IntRange(1, 8).Draw(t, "page")
 			start := rapid.IntRange(0, n+1).Draw(t, "start")
 			styp := rapid.Byte().Draw(t, "sensorType")
-			c := &dcmi.GetDCMISensorInfoCmd{Req: dcmi.GetDCMISensorInfoReq{Type: ipmi.SensorType(styp), Entity: ipmi.EntityID(ent), Instance: 0, InstanceStart: uint8(start)}}
-			exp := ref.DCMISensorInfo{Total: byte(n)}
-			if start >= 1 && start <= n {
-				hi := start - 1 + b.Data.DCMIPage
-				if hi > n {
-					hi = n
+			return withRemake(func() *Call {
+				c := &dcmi.GetDCMISensorInfoCmd{Req: dcmi.GetDCMISensorInfoReq{Type: ipmi.SensorType(styp), Entity: ipmi.EntityID(ent), Instance: 0, InstanceStart: uint8(start)}}
+				exp := ref.DCMISensorInfo{Total: byte(n)}
+				if start >= 1 && start <= n {
+					hi := start - 1 + b.Data.DCMIPage
+					if hi > n {
+						hi = n
+					}
+					exp.IDs = ids[start-1 : hi]
 				}
-				exp.IDs = ids[start-1 : hi]
-			}
-			return &Call{Name: "Get DCMI Sensor Info", Key: key(ref.NetFnGroup, ref.CmdDCMISensorInfo), Cmd: c, HasBody: true,
-				WantFields: map[string]uint64{"type": uint64(styp), "entity": uint64(ent), "instance": 0, "start": uint64(start)},
-				Check:      func() error { return CmpDCMISensorInfo(&exp, &c.Rsp) }, Summary: func() string { return fmt.Sprintf("%v %v", c.Rsp.Instances, c.Rsp.RecordIDs) }}
+				return &Call{Name: "Get DCMI Sensor Info", Key: key(ref.NetFnGroup, ref.CmdDCMISensorInfo), Cmd: c, HasBody: true,
+					WantFields: map[string]uint64{"type": uint64(styp), "entity": uint64(ent), "instance": 0, "start": uint64(start)},
+					Check:      func() error { return CmpDCMISensorInfo(&exp, &c.Rsp) }, Summary: func() string { return fmt.Sprintf("%v %v", c.Rsp.Instances, c.Rsp.RecordIDs) }}
+			})
 		}},
 		{Name: "DCMIGetCapabilities", Prepare: func(t *rapid.T, b *simbmc.BMC) *Call {
 			param := byte(rapid.IntRange(1, 5).Draw(t, "param"))
 			cc := GenDCMICaps(param).Draw(t, "caps")
 			b.Data.DCMICaps = map[byte][]byte{param: cc.Bytes()}
-			cmd, check, sum := cc.Command()
-			return &Call{Name: cmd.Name(), Key: key(ref.NetFnGroup, ref.CmdDCMICaps), Cmd: cmd, HasBody: true,
-				WantFields: map[string]uint64{"param": uint64(param)}, Check: check, Summary: sum}
+			return withRemake(func() *Call {
+				cmd, check, sum := cc.Command()
+				return &Call{Name: cmd.Name(), Key: key(ref.NetFnGroup, ref.CmdDCMICaps), Cmd: cmd, HasBody: true,
+					WantFields: map[string]uint64{"param": uint64(param)}, Check: check, Summary: sum}
+			})
 		}},
 	}
+}
+
+func withRemake(mk func() *Call) *Call {
+	c := mk()
+	c.remake = mk
+	return c
 }
 
 // CatalogueEntry returns the named entry.
